@@ -56,6 +56,7 @@ type Ctx struct {
 	Tier     string
 	Out      string
 	Replay   []string // non-nil: replay these case lines instead of generating
+	Args     []string // positional arguments after the flags
 	cases    *bufio.Writer
 	impl     *bufio.Writer
 	oracle   *bufio.Writer
@@ -172,6 +173,7 @@ func main() {
 		Rng: NewRng(*seed), Seed: *seed, N: *n, Tier: *tier, Out: *out,
 		cases: bufio.NewWriterSize(cf, 1<<20), impl: bufio.NewWriterSize(imf, 1<<20), oracle: bufio.NewWriterSize(of, 1<<20),
 		Counters: map[string]int{}, distinct: map[string]bool{}, Extra: map[string]any{},
+		Args: fs.Args(),
 	}
 	if *replay != "" {
 		data, err := os.ReadFile(*replay)
